@@ -475,6 +475,67 @@ End PruneProofs.
 Theorem prune_zero nobjs l : nondominated_prune nobjs l 0 = Some [].
 Proof. reflexivity. Qed.
 
+(* ---------- nondominated_prune never fails (fuel suffices, crowding_distance does not raise) ---------- *)
+Definition prunable (nobjs : nat) (rem : list asol) : Prop :=
+  NoDup (map asid rem) /\ forall a, In a rem -> finite_objs (a_sol a) /\ nobjs <= length (s_objs (a_sol a)).
+
+Lemma reannotate_total cs : forall rem, (forall a, In a rem -> cget cs (asid a) <> None) ->
+  exists rem', reannotate cs rem = Some rem'.
+Proof.
+  induction rem as [|a rem IH]; intro H; [simpl; eauto|]. simpl.
+  destruct (cget cs (sid (a_sol a))) as [v|] eqn:E; [|exfalso; apply (H a); [now left|exact E]].
+  destruct IH as [r' Hr]; [intros b Hb; apply H; now right|]. rewrite Hr. eauto.
+Qed.
+
+Lemma reannotate_sols : forall cs l l', reannotate cs l = Some l' -> map a_sol l' = map a_sol l.
+Proof.
+  intros cs l l' H. apply reannotate_core in H.
+  apply (f_equal (map fst)) in H. rewrite !map_map in H. exact H.
+Qed.
+
+Lemma prune_loop_total nobjs : forall fuel nres rem size, nres <= size ->
+  length rem <= fuel + (size - nres) -> prunable nobjs rem ->
+  exists out, prune_loop fuel nobjs nres rem size = Some out.
+Proof.
+  induction fuel as [|fuel IH]; intros nres rem size Hle Hlen [Hnd Hfin]; simpl.
+  - assert (E : Nat.ltb size (nres + length rem) = false) by (apply Nat.ltb_ge; lia). rewrite E. eauto.
+  - destruct (Nat.ltb size (nres + length rem)) eqn:E; [|eauto]. apply Nat.ltb_lt in E.
+    destruct (crowding_total nobjs (map a_sol rem)) as [cs Hcs].
+    { intros x Hx. apply in_map_iff in Hx. destruct Hx as [a [<- Ha]]. now apply Hfin. }
+    rewrite Hcs.
+    assert (Hinj : sid_inj (map a_sol rem)).
+    { apply NoDup_sid_inj. rewrite map_map. exact Hnd. }
+    destruct (reannotate_total cs rem) as [rem' Hr].
+    { intros a Ha. destruct (crowding_binds _ _ _ Hinj Hcs (a_sol a) (in_map a_sol _ _ Ha)) as [v Hv].
+      unfold asid. rewrite Hv. discriminate. }
+    rewrite Hr. pose proof (reannotate_sols _ _ _ Hr) as Hs.
+    assert (Hl' : length rem' = length rem) by (rewrite <- (map_length a_sol rem'), Hs; apply map_length).
+    assert (Hasid : map asid rem' = map asid rem).
+    { change asid with (fun a => sid (a_sol a)). rewrite <- !(map_map a_sol sid). now rewrite Hs. }
+    apply IH; [assumption| |].
+    + rewrite truncate_length. lia.
+    + split.
+      * apply truncate_NoDup. now rewrite Hasid.
+      * intros a Ha. apply truncate_incl in Ha.
+        assert (In (a_sol a) (map a_sol rem)) by (rewrite <- Hs; now apply in_map).
+        apply in_map_iff in H. destruct H as [b [Eb Hb]]. rewrite <- Eb. now apply Hfin.
+Qed.
+
+Theorem prune_total nobjs l size : prunable nobjs l -> exists out, nondominated_prune nobjs l size = Some out.
+Proof.
+  intros [Hnd Hfin]. unfold nondominated_prune.
+  destruct (nd_split_spec l size) as [r [last [Hs [_ [Hle Hcase]]]]]. rewrite Hs.
+  destruct (prune_loop_total nobjs (length last) (length (fronts_upto a_rank l r)) last size Hle) as [rem' Hr]; [lia| |].
+  - destruct Hcase as [[-> _]|[-> _]]; [split; [constructor|intros a []]|].
+    split.
+    + unfold Truncate.matches. clear - Hnd. induction l as [|a l IH]; [constructor|]. simpl in *.
+      inversion Hnd as [|s m Hn Hnd']; subst. destruct (Nat.eqb (a_rank a) r); [|now apply IH].
+      simpl. constructor; [|now apply IH]. intro Hin. apply Hn.
+      apply in_map_iff in Hin. destruct Hin as [b [Eb Hb]]. apply filter_In in Hb. rewrite <- Eb. apply in_map. tauto.
+    + intros a Ha. unfold Truncate.matches in Ha. apply filter_In in Ha. apply Hfin. tauto.
+  - rewrite Hr. eauto.
+Qed.
+
 (* ---------- non-vacuity ---------- *)
 Definition ex_pop : list xsol :=
   [ Build_sol 0 [FZ 0; FZ 4] xzero; Build_sol 1 [FZ 4; FZ 0] xzero; Build_sol 2 [FZ 1; FZ 2] xzero;
@@ -542,3 +603,30 @@ Section SortedPopulation.
     destruct (split_all asol a_rank ann size m Hr Hocc H) as [E P]. eauto.
   Qed.
 End SortedPopulation.
+
+(* the hypotheses of the rank / crowding / totality theorems hold for this population *)
+Example ex_pop_wf : Forall (sol_wf xq xltb xzero [false; false]) ex_pop.
+Proof. repeat constructor. Qed.
+
+Example ex_pop_inj : sid_inj ex_pop.
+Proof.
+  apply NoDup_sid_inj. simpl.
+  repeat (constructor; [simpl; intuition discriminate|]). constructor.
+Qed.
+
+Example ex_pop_finite : forall x, In x ex_pop -> finite_objs x.
+Proof.
+  intros x H. simpl in H.
+  repeat (destruct H as [<-|H]; [repeat constructor; discriminate|]). contradiction.
+Qed.
+
+Example ex_pop_sorts : exists ann, x_nd_sort false [false; false] ex_pop = Some ann.
+Proof. exact (x_nd_sort_total false [false; false] ex_pop ex_pop_wf ex_pop_inj ex_pop_finite). Qed.
+
+(* member 6 = (4,4) has rank 2: its dominators have ranks <= 1 and member 5 = (2,3), of rank 1, dominates it *)
+Example ex_rank_depth_instance :
+  forall a, In a ex_ann -> asid a = 6 -> a_rank a = 2.
+Proof.
+  intros a Ha. vm_compute in Ha.
+  repeat (destruct Ha as [<-|Ha]; [vm_compute; intro E; try discriminate E; reflexivity|]). contradiction.
+Qed.
